@@ -246,7 +246,25 @@ func (r FieldRef) Is(pkg, typ, field string) bool {
 	if r.Struct == nil || r.Struct.Obj() == nil || r.Struct.Obj().Pkg() == nil {
 		return false
 	}
-	return r.Field == ResolveField(pkg, typ, field) && r.Struct.Obj().Name() == typ && r.Struct.Obj().Pkg().Path() == fullPkg(pkg)
+	if r.Struct.Obj().Pkg().Path() != fullPkg(pkg) {
+		return false
+	}
+	if na, ok := nestedAlias[fieldKey{pkg, typ, field}]; ok {
+		// the role moved into a private struct that is a by-value field of typ
+		return r.Struct.Obj().Name() == na.typ && r.Field == na.field
+	}
+	return r.Field == ResolveField(pkg, typ, field) && r.Struct.Obj().Name() == typ
+}
+
+type nestedField struct{ typ, field string }
+
+var nestedAlias = map[fieldKey]nestedField{}
+
+// SetNestedFieldAlias registers that role `role` of struct pkg.typ is played by field
+// `field` of the private struct pkg.inner, which typ holds by value (fields grouped into a
+// nested struct).
+func SetNestedFieldAlias(pkg, typ, role, inner, field string) {
+	nestedAlias[fieldKey{pkg, typ, role}] = nestedField{inner, field}
 }
 
 // Field roles: the checks name some unexported fields by the name they have in the tree
